@@ -11,6 +11,7 @@ handlers for the composite preconditioners (C18).  Dense matrices are written `r
   comp_cprb      B active_rows Kb skind Smat Pmat f            (Kb: CRS of row-major B×B blocks)
   comp_cprb_upd  B active_rows Kb skind Smat Pmat f upd Kb2
   comp_defl      nt A nvec Z₀ … Z_{nvec-1} pkind Pmat b x0
+  comp_pmask     n pattern                                      (`pmask_pattern` → mask)
 
 The inner solvers are the functions "multiply by the dense matrix of the op line" (`skind = 1`: point Jacobi of the
 matrix the global preconditioner is constructed with, `pkind = 0`: `preconditioner::dummy`, the identity); the
@@ -175,8 +176,25 @@ def defl (nt : Nat) (A : CRS Rat) (Z : List (Vec Rat)) (pkind : Nat) (Pm : Dense
     joinSp ["Einv", showVec st.Einv, "proj", showVec (Deflation.project nt st b x0),
             "apply", showVec (Deflation.apply nt st Pf b), "solve", showVec (Deflation.solvePreonly nt st Pf b x0)]
 
+/-- the accepted pattern strings: `%d:d+` with positive stride, `<d+`, `>d+` -/
+def patternOk (pat : String) : Bool :=
+  let digits := fun (l : List Char) => !l.isEmpty && l.all Char.isDigit
+  match pat.toList with
+  | '%' :: a :: ':' :: rest => a.isDigit && digits rest && Schur.atoi (String.ofList rest) > 0
+  | '<' :: rest => digits rest
+  | '>' :: rest => digits rest
+  | _ => false
+
+def pmaskOp (n : Nat) (pat : String) : String :=
+  if !patternOk pat then badInput else
+  if n = 0 then "precondition" else
+  match Schur.maskOfPattern pat n with
+  | none => "precondition"
+  | some m => showNatVec (m.map (fun b => if b then 1 else 0))
+
 def handle (op : String) (args : List String) : Option String :=
   match op with
+  | "comp_pmask" => withArgs (do let n ← pNat; let pat ← tok; pure (n, pat)) args fun (n, pat) => pmaskOp n pat
   | "comp_schur" => withArgs (do
         let nt ← pNat; let type ← pNat; let adj ← pNat; let ap ← pBool; let sd ← pBool
         let A ← pCRS; let pm ← pMask; let Um ← pDense; let Pm ← pDense; let f ← pVec
